@@ -17,6 +17,7 @@ pub struct PanicRecord {
   pub frame: String,
   /// true when the panic site is in driver code (/verif/incrate): harness bug
   pub in_driver: bool,
+  pub rustdds_frames: Vec<String>,
 }
 
 thread_local! {
@@ -48,7 +49,10 @@ fn first_rustdds_frame(bt: &str) -> String {
     let Some(pos) = l.find(": ") else { continue };
     let name = &l[pos + 2..];
     let is_rustdds = name.starts_with("rustdds::") || name.starts_with("<rustdds::");
-    if is_rustdds && !name.contains("rustdds::verif::") {
+    // trait impls on small value types (`<SequenceNumber as Add>::add`,
+    // `<NumberSetIter as Iterator>::next`) say little about the call site: take
+    // the first plain function or method instead
+    if is_rustdds && !name.contains("rustdds::verif::") && !name.starts_with('<') {
       return clean_frame(name);
     }
   }
@@ -76,6 +80,13 @@ pub fn install_panic_hook() {
       .unwrap_or_default();
     let bt = Backtrace::force_capture().to_string();
     let frame = first_rustdds_frame(&bt);
+    let rustdds_frames: Vec<String> = bt
+      .lines()
+      .map(str::trim)
+      .filter(|l| l.contains("rustdds::") && !l.starts_with("at "))
+      .take(12)
+      .map(|l| l.to_string())
+      .collect();
     let in_driver = file.starts_with("/verif/incrate") && !message.contains("VERIF-TICK-BUDGET");
     LAST.with(|l| {
       // keep the first panic of a case (a second one during unwinding is noise)
@@ -87,6 +98,7 @@ pub fn install_panic_hook() {
           line,
           frame,
           in_driver,
+          rustdds_frames,
         });
       }
     });
